@@ -109,6 +109,41 @@ def parse_delegation(body):
     return None
 
 
+def parse_via_display(F, body):
+    """FromStr written as the inverse of Display: the first of value_variants() whose to_string() equals s, else Err.
+    Returns True when the whole parser has that form."""
+    from ..trace import Tracer
+    from ..symx import var, app, single_atom, atom_fn, atom_args, Poly, canon_cond
+    if [m for m in find_matches(body.value) if len(m["arms"]) >= 3]:
+        return False
+    t = Tracer(F, "NONE", inline=lambda p: F.private_helper(p, "decoder::factory::"))
+    env = {}
+    t.bind(body.params[0], var("s"), env)
+    try:
+        v = t.eval(body.value, env)
+    except Exception:
+        return False
+    a = single_atom(v) if isinstance(v, Poly) else None
+    if not (a and atom_fn(a) in ("std::option::Option::<T>::ok_or", "std::option::Option::<T>::ok_or_else")):
+        return False
+    f = single_atom(atom_args(a)[0]) if isinstance(atom_args(a)[0], Poly) else None
+    if not (f and atom_fn(f) == "std::iter::Iterator::find"):
+        return False
+    src, clo = f[2], f[3]
+    if src != ("iterdesc", ("elems", ("P", app("clap::ValueEnum::value_variants")))):
+        return False
+    node = F.closures.get(clo[1]) if isinstance(clo, tuple) and clo[0] == "closure" else None
+    if node is None:
+        return False
+    pv = Tracer(F, "NONE").apply(("closure", node, dict(t.closure_envs.get(clo[1], {}))), [var("c")])
+    c, pol = canon_cond(pv, True) if isinstance(pv, Poly) else (None, None)
+    ca = single_atom(c) if isinstance(c, Poly) else None
+    if not (ca and atom_fn(ca) in ("eq", "op_eq") and pol):
+        return False
+    sides = set(map(repr, atom_args(ca)))
+    return sides == {repr(app("std::string::ToString::to_string", var("c"))), repr(var("s"))}
+
+
 def parse_table(body):
     m = the_match(body, body.path)
     tab = {}
@@ -199,6 +234,13 @@ def run(ck, F, tier):
         T_clap0 = clap_table(b_clap)
         T_parse = {row["text"]: [{"variant": k, "guard": False, "site": row["site"]}] for k, row in T_clap0.items() if row["text"] is not None}
         wild = {"err": True, "site": deleg["sp"]}
+    elif parse_via_display(F, b_parse):
+        # the parser is by construction the inverse of Display on the listed variants (T3: texts; T4: value_variants lists all 36)
+        ck.inst("T2", "parse:inverse-of-display", True, b_parse.span,
+                "FromStr returns the variant of value_variants() whose Display text equals the string exactly, and Err otherwise")
+        T_show0 = show_table(b_show)
+        T_parse = {row["text"]: [{"variant": k, "guard": False, "site": row["site"]}] for k, row in T_show0.items() if row["text"] is not None}
+        wild = {"err": True, "site": b_parse.span}
     else:
         T_parse, wild = parse_table(b_parse)
     T_show = show_table(b_show)
